@@ -234,6 +234,17 @@ def run(ctx):
         b = respell(ctx.rng, a) if ctx.rng.random() < 0.8 else rand_numeral(ctx.rng)
         rp.append((a, b) if ctx.rng.random() < 0.5 else (b, a))
         ctx.nontrivial.add(a)
+    # machine-word boundaries: integer parts of 18..21 digits around 2^63, 2^64, 10^19, 10^20 (a fast path through a fixed-width integer would wrap here)
+    edges = []
+    for base in (2 ** 63, 2 ** 64, 10 ** 19, 10 ** 20, 2 ** 64 + 10 ** 19, 99999999999999999999, 10 ** 18, 2 ** 32, 2 ** 53):
+        for d in (-2, -1, 0, 1, 2, 12345):
+            v = base + d
+            edges += [str(v), "-" + str(v), str(v) + ".5", str(v) + ".000", "%se%d" % (str(v)[:-3] + "." + str(v)[-3:], 3), str(v) + "0e-1"]
+    edges = list(dict.fromkeys(edges))
+    bp = [(a, b) for a in edges for b in ctx.rng.sample(edges, 12)]
+    ctx.extra["boundary_pairs"] = len(bp)
+    run_lines(ctx, ["C %s %s" % p for p in bp], [str(sign(value(a) - value(b))) for a, b in bp], "word-boundary-pairs", whatC)
+    rp = rp + ctx.rng.sample(bp, min(len(bp), 300 if quick else 3000))
     run_lines(ctx, ["C %s %s" % p for p in rp], [str(sign(value(a) - value(b))) for a, b in rp], "random-pairs", whatC)
     rn = [a for a, _ in rp]
     run_lines(ctx, ["N " + s for s in rn], [expected_N(s) for s in rn], "random-numerals", whatN)
